@@ -71,6 +71,21 @@ func RunSkip(c *core.Ctx) {
 	}
 	buf := info.ObjectOf(fd.Type.Params.List[0].Names[0])
 	body := fd.Body.List
+	// closures defined between the three prologue definitions and the record loop (`name := func() ... {...}`)
+	var extraPrologue []ast.Stmt
+	{
+		var kept []ast.Stmt
+		for i, st := range body {
+			if as, ok := st.(*ast.AssignStmt); ok && i >= 3 && as.Tok == token.DEFINE && len(as.Lhs) == 1 && len(as.Rhs) == 1 {
+				if _, isLit := as.Rhs[0].(*ast.FuncLit); isLit {
+					extraPrologue = append(extraPrologue, st)
+					continue
+				}
+			}
+			kept = append(kept, st)
+		}
+		body = kept
+	}
 	if len(body) != 5 {
 		undecided(fmt.Sprintf("body has %d statements, expected: l, cursor, depth, record loop, final EOF return", len(body)), nil)
 		return
@@ -122,7 +137,33 @@ func RunSkip(c *core.Ctx) {
 		acc  types.Object
 		accT types.Type
 	}
-	matchVarint := func(fs *ast.ForStmt) (*vr, string) {
+	// rctx: what "cursor", "limit", "buffer", "error exit" and "done" mean for the loop being matched: inside Skip
+	// itself they are the cursor, l, dAtA, `return 0, err` and `break`; inside a reader function they are its own
+	// parameter / captured variables and its return statements.
+	type rctx struct {
+		isIdx, isLimit, isBuf func(ast.Expr) bool
+		isErrExit             func(*ast.BlockStmt) bool
+		isDone                func(ast.Stmt, types.Object) bool // leaves the loop with the value read (acc may be nil)
+	}
+	validIdx := map[*ast.IndexExpr]bool{}
+	var matchVarintCtx func(fs *ast.ForStmt, cx rctx) (*vr, string)
+	skipCtx := rctx{
+		isIdx:     func(x ast.Expr) bool { return is(x, idx) },
+		isLimit:   func(x ast.Expr) bool { return is(x, lVar) },
+		isBuf:     func(x ast.Expr) bool { return is(x, buf) },
+		isErrExit: isErrRet,
+		isDone: func(s ast.Stmt, _ types.Object) bool {
+			br, ok := s.(*ast.BranchStmt)
+			return ok && br.Tok == token.BREAK && br.Label == nil
+		},
+	}
+	matchVarint := func(fs *ast.ForStmt) (*vr, string) { return matchVarintCtx(fs, skipCtx) }
+	matchVarintCtx = func(fs *ast.ForStmt, cx rctx) (*vr, string) {
+		is := func(x ast.Expr, o types.Object) bool {
+			id, ok := ast.Unparen(x).(*ast.Ident)
+			return ok && o != nil && info.ObjectOf(id) == o
+		}
+		isErrRet := cx.isErrExit
 		init, ok := fs.Init.(*ast.AssignStmt)
 		if !ok || init.Tok != token.DEFINE || len(init.Lhs) != 1 || fs.Cond != nil {
 			return nil, "loop header"
@@ -155,15 +196,16 @@ func RunSkip(c *core.Ctx) {
 		if !ok || !isErrRet(g2.Body) {
 			return nil, "bounds guard"
 		}
-		if cc, ok := g2.Cond.(*ast.BinaryExpr); !ok || cc.Op != token.GEQ || !is(cc.X, idx) || !is(cc.Y, lVar) {
+		if cc, ok := g2.Cond.(*ast.BinaryExpr); !ok || cc.Op != token.GEQ || !cx.isIdx(cc.X) || !cx.isLimit(cc.Y) {
 			return nil, "bounds guard is not cursor >= l"
 		}
+		var accObj types.Object
 		isBreakIf := func(s ast.Stmt, byteExpr func(ast.Expr) bool) bool {
 			g, ok := s.(*ast.IfStmt)
 			if !ok || g.Else != nil || len(g.Body.List) != 1 {
 				return false
 			}
-			if br, ok := g.Body.List[0].(*ast.BranchStmt); !ok || br.Tok != token.BREAK {
+			if !cx.isDone(g.Body.List[0], accObj) {
 				return false
 			}
 			cc, ok := g.Cond.(*ast.BinaryExpr)
@@ -176,17 +218,20 @@ func RunSkip(c *core.Ctx) {
 		// form "skip": idx++ ; if buf[idx-1] < 0x80 {break}
 		if len(b) == 4 {
 			inc, ok := b[2].(*ast.IncDecStmt)
-			if ok && inc.Tok == token.INC && is(inc.X, idx) {
+			if ok && inc.Tok == token.INC && cx.isIdx(inc.X) {
 				if isBreakIf(b[3], func(x ast.Expr) bool {
 					ie, ok := ast.Unparen(x).(*ast.IndexExpr)
-					if !ok || !is(ie.X, buf) {
+					if !ok || !cx.isBuf(ie.X) {
 						return false
 					}
 					be, ok := ast.Unparen(ie.Index).(*ast.BinaryExpr)
-					if !ok || be.Op != token.SUB || !is(be.X, idx) {
+					if !ok || be.Op != token.SUB || !cx.isIdx(be.X) {
 						return false
 					}
 					k, ok := constInt(info, be.Y)
+					if ok && k == 1 {
+						validIdx[ie] = true
+					}
 					return ok && k == 1
 				}) {
 					return &vr{}, ""
@@ -203,11 +248,12 @@ func RunSkip(c *core.Ctx) {
 		}
 		bv := info.ObjectOf(d.Lhs[0].(*ast.Ident))
 		ie, ok := ast.Unparen(d.Rhs[0]).(*ast.IndexExpr)
-		if !ok || !is(ie.X, buf) || !is(ie.Index, idx) {
+		if !ok || !cx.isBuf(ie.X) || !cx.isIdx(ie.Index) {
 			return nil, "byte load is not dAtA[cursor]"
 		}
+		validIdx[ie] = true
 		inc, ok := b[3].(*ast.IncDecStmt)
-		if !ok || inc.Tok != token.INC || !is(inc.X, idx) {
+		if !ok || inc.Tok != token.INC || !cx.isIdx(inc.X) {
 			return nil, "cursor increment"
 		}
 		acc, ok := b[4].(*ast.AssignStmt)
@@ -249,6 +295,7 @@ func RunSkip(c *core.Ctx) {
 		if !seven(shl.X) {
 			return nil, "accumulated value is not the low 7 bits of the byte"
 		}
+		accObj = info.ObjectOf(accID)
 		if !isBreakIf(b[5], func(x ast.Expr) bool { return is(x, bv) }) {
 			return nil, "termination test is not b < 0x80"
 		}
@@ -256,27 +303,256 @@ func RunSkip(c *core.Ctx) {
 		return &vr{acc: o, accT: o.Type()}, ""
 	}
 
+	// ---- varint reader functions: the same guarded loop factored out, either as a closure over the cursor
+	// (`func() (uint64, error)`) or as a package function `(buf []byte, i int) (v uint64, next int, err error)`.
+	// readers maps the function object (local variable or package function) to its kind once its body matched.
+	type readerFn struct{ closure bool }
+	readers := map[types.Object]*readerFn{}
+	zeroOrNilExcept := func(rs *ast.ReturnStmt) bool { // return 0..., <non-nil err>
+		if len(rs.Results) < 2 || types.ExprString(rs.Results[len(rs.Results)-1]) == "nil" {
+			return false
+		}
+		for _, r := range rs.Results[:len(rs.Results)-1] {
+			if k, ok := constInt(info, r); !ok || k != 0 {
+				return false
+			}
+		}
+		return true
+	}
+	matchReaderBody := func(ft *ast.FuncType, body *ast.BlockStmt, closure bool) bool {
+		var pBuf, pIdx types.Object
+		nRes := 0
+		if ft.Results != nil {
+			for _, r := range ft.Results.List {
+				if len(r.Names) == 0 {
+					nRes++
+				} else {
+					nRes += len(r.Names)
+				}
+			}
+		}
+		if closure {
+			if len(ft.Params.List) != 0 || nRes != 2 {
+				return false
+			}
+		} else {
+			var ps []*ast.Ident
+			for _, f := range ft.Params.List {
+				ps = append(ps, f.Names...)
+			}
+			if len(ps) != 2 || nRes != 3 {
+				return false
+			}
+			pBuf, pIdx = info.ObjectOf(ps[0]), info.ObjectOf(ps[1])
+			if _, isSlice := pBuf.Type().Underlying().(*types.Slice); !isSlice || basicKind(pIdx.Type()) != types.Int {
+				return false
+			}
+		}
+		list := body.List
+		// optional `var v uint64`
+		if len(list) == 2 {
+			if _, ok := list[0].(*ast.DeclStmt); !ok {
+				return false
+			}
+			list = list[1:]
+		}
+		if len(list) != 1 {
+			return false
+		}
+		fs, ok := list[0].(*ast.ForStmt)
+		if !ok {
+			return false
+		}
+		cx := skipCtx
+		if !closure {
+			cx.isIdx = func(x ast.Expr) bool { return is(x, pIdx) }
+			cx.isBuf = func(x ast.Expr) bool { return is(x, pBuf) }
+			cx.isLimit = func(x ast.Expr) bool {
+				call, ok := ast.Unparen(x).(*ast.CallExpr)
+				if !ok || len(call.Args) != 1 {
+					return false
+				}
+				b, ok := core.CalleeObj(info, call).(*types.Builtin)
+				return ok && b.Name() == "len" && is(call.Args[0], pBuf)
+			}
+		}
+		cx.isErrExit = func(b *ast.BlockStmt) bool {
+			if b == nil || len(b.List) != 1 {
+				return false
+			}
+			rs, ok := b.List[0].(*ast.ReturnStmt)
+			return ok && len(rs.Results) == nRes && zeroOrNilExcept(rs)
+		}
+		cx.isDone = func(st ast.Stmt, acc types.Object) bool {
+			rs, ok := st.(*ast.ReturnStmt)
+			if !ok || len(rs.Results) != nRes || acc == nil || !is(rs.Results[0], acc) || types.ExprString(rs.Results[nRes-1]) != "nil" {
+				return false
+			}
+			return closure || is(rs.Results[1], pIdx)
+		}
+		v, _ := matchVarintCtx(fs, cx)
+		return v != nil && v.acc != nil && basicKind(v.accT) == types.Uint64
+	}
+	// closures defined in Skip's own prologue are looked for among the statements before the record loop: the
+	// prologue matcher above insists on exactly three definitions, so a closure makes the body longer; it is
+	// accepted as an extra statement `name := func() (uint64, error) {...}` (see bodyStmts below).
+	for _, st := range extraPrologue {
+		as := st.(*ast.AssignStmt)
+		fl := as.Rhs[0].(*ast.FuncLit)
+		ro := info.ObjectOf(as.Lhs[0].(*ast.Ident))
+		// the variable keeps this function: it is never assigned again and its address is never taken
+		reassigned := false
+		ast.Inspect(fd.Body, func(n ast.Node) bool {
+			switch t := n.(type) {
+			case *ast.AssignStmt:
+				if t != as {
+					for _, l := range t.Lhs {
+						if is(l, ro) {
+							reassigned = true
+						}
+					}
+				}
+			case *ast.UnaryExpr:
+				if t.Op == token.AND && is(t.X, ro) {
+					reassigned = true
+				}
+			}
+			return true
+		})
+		if !reassigned && matchReaderBody(fl.Type, fl.Body, true) {
+			readers[ro] = &readerFn{closure: true}
+		} else {
+			undecided("local function literal is not a guarded varint reader", st)
+			return
+		}
+	}
+	for name, hd := range core.FuncDecls(p) {
+		if name == "Skip" || hd.Body == nil || hd.Recv != nil {
+			continue
+		}
+		if o := info.Defs[hd.Name]; o != nil && matchReaderBody(hd.Type, hd.Body, false) {
+			readers[o] = &readerFn{closure: false}
+		}
+	}
+	errIsReturned := func(st ast.Stmt, errObj types.Object) bool { // if err != nil { return 0, err }
+		g, ok := st.(*ast.IfStmt)
+		if !ok || g.Else != nil || g.Init != nil || len(g.Body.List) != 1 {
+			return false
+		}
+		cc, ok := g.Cond.(*ast.BinaryExpr)
+		if !ok || cc.Op != token.NEQ || !is(cc.X, errObj) || types.ExprString(cc.Y) != "nil" {
+			return false
+		}
+		rs, ok := g.Body.List[0].(*ast.ReturnStmt)
+		if !ok || len(rs.Results) != 2 || !is(rs.Results[1], errObj) {
+			return false
+		}
+		k, ok := constInt(info, rs.Results[0])
+		return ok && k == 0
+	}
+	// readerCall: `X, err (:=|=) R()` or `X, cursor, err = R(buf, cursor)`: returns the value target (nil for _) and err
+	readerCall := func(as *ast.AssignStmt) (val types.Object, discard bool, errObj types.Object, ok bool) {
+		if len(as.Rhs) != 1 {
+			return
+		}
+		call, isCall := ast.Unparen(as.Rhs[0]).(*ast.CallExpr)
+		if !isCall {
+			return
+		}
+		fid, isId := ast.Unparen(call.Fun).(*ast.Ident)
+		if !isId {
+			return
+		}
+		r := readers[info.ObjectOf(fid)]
+		if r == nil {
+			return
+		}
+		if r.closure {
+			if len(call.Args) != 0 || len(as.Lhs) != 2 {
+				return
+			}
+		} else {
+			if len(call.Args) != 2 || !is(call.Args[0], buf) || !is(call.Args[1], idx) || len(as.Lhs) != 3 || !is(as.Lhs[1], idx) {
+				return
+			}
+		}
+		v0, isId0 := as.Lhs[0].(*ast.Ident)
+		e0, isIdE := as.Lhs[len(as.Lhs)-1].(*ast.Ident)
+		if !isId0 || !isIdE || e0.Name == "_" {
+			return
+		}
+		if v0.Name == "_" {
+			return nil, true, info.ObjectOf(e0), true
+		}
+		return info.ObjectOf(v0), false, info.ObjectOf(e0), true
+	}
+	// readStep matches one varint read at list[i:]: the inline loop (with its accumulator declaration) or a reader
+	// call followed by the error test. It returns the value read (nil when discarded) and the statements consumed.
+	readStep := func(list []ast.Stmt, i int) (acc types.Object, n int, why string) {
+		if i >= len(list) {
+			return nil, 0, "no statement"
+		}
+		// inline, accumulating: var X T; for ... {}
+		if d, ok := list[i].(*ast.DeclStmt); ok && i+1 < len(list) {
+			if gd, ok := d.Decl.(*ast.GenDecl); ok && gd.Tok == token.VAR && len(gd.Specs) == 1 {
+				vs := gd.Specs[0].(*ast.ValueSpec)
+				if len(vs.Names) == 1 && len(vs.Values) == 0 {
+					x := info.ObjectOf(vs.Names[0])
+					if fl, ok := list[i+1].(*ast.ForStmt); ok {
+						v, w := matchVarint(fl)
+						if v != nil && v.acc == x {
+							return x, 2, ""
+						}
+						return nil, 0, w
+					}
+					// var X T; X, cursor, err = R(buf, cursor); if err != nil {...}
+					if as, ok := list[i+1].(*ast.AssignStmt); ok && as.Tok == token.ASSIGN && i+2 < len(list) {
+						if val, _, errObj, ok := readerCall(as); ok && val == x && errIsReturned(list[i+2], errObj) {
+							return x, 3, ""
+						}
+					}
+				}
+			}
+		}
+		// inline, skipping
+		if fl, ok := list[i].(*ast.ForStmt); ok {
+			v, w := matchVarint(fl)
+			if v != nil && v.acc == nil {
+				return nil, 1, ""
+			}
+			return nil, 0, w
+		}
+		// X, err := R(); if err != nil { return 0, err }
+		if as, ok := list[i].(*ast.AssignStmt); ok && i+1 < len(list) {
+			if val, _, errObj, ok := readerCall(as); ok && errIsReturned(list[i+1], errObj) {
+				return val, 2, ""
+			}
+		}
+		// if _, err := R(); err != nil { return 0, err }
+		if g, ok := list[i].(*ast.IfStmt); ok && g.Init != nil {
+			if as, ok := g.Init.(*ast.AssignStmt); ok {
+				if _, discard, errObj, ok := readerCall(as); ok && discard {
+					if errIsReturned(&ast.IfStmt{Cond: g.Cond, Body: g.Body}, errObj) {
+						return nil, 1, ""
+					}
+				}
+			}
+		}
+		return nil, 0, "not a guarded varint read"
+	}
+
 	lb := loop.Body.List
-	if len(lb) != 6 {
-		undecided(fmt.Sprintf("record loop body has %d statements, expected: tag var, tag reader, wireType, switch, overflow check, depth check", len(lb)), loop)
+	wire, nTag, why := readStep(lb, 0)
+	if nTag == 0 || wire == nil || basicKind(wire.Type()) != types.Uint64 {
+		fail("L.skip", "tag reader", "the tag is not read by the guarded varint reader into a fresh uint64 ("+why+")", loop)
 		return
 	}
-	d0, ok := lb[0].(*ast.DeclStmt)
-	if !ok {
-		undecided("tag variable declaration", lb[0])
+	if len(lb) != nTag+4 {
+		undecided(fmt.Sprintf("record loop body has %d statements, expected: tag read, wireType, switch, overflow check, depth check", len(lb)), loop)
 		return
 	}
-	wire := info.ObjectOf(d0.Decl.(*ast.GenDecl).Specs[0].(*ast.ValueSpec).Names[0])
-	tl, ok := lb[1].(*ast.ForStmt)
-	if !ok {
-		undecided("tag reader", lb[1])
-		return
-	}
-	tv, why := matchVarint(tl)
-	if tv == nil || tv.acc != wire || basicKind(tv.accT) != types.Uint64 {
-		fail("L.skip", "tag reader", "the tag is not read by the guarded varint reader into a fresh uint64 ("+why+")", tl)
-		return
-	}
+	tl := lb[0]
+	lb = append([]ast.Stmt{nil, nil}, lb[nTag:]...) // keep the positions used below: lb[2] wireType, lb[3] switch, lb[4], lb[5]
 	c.Ok("L.skip", "runtime.Skip tag reader", "guarded varint reader (cursor >= l and shift >= 64 return errors; dAtA[cursor] is read only after the bounds guard); consumes >= 1 byte per record", c.PosStr(p.Fset, tl.Pos()), src)
 	c.Ok("L.skip.progress", "runtime.Skip record loop", "every iteration consumes the tag (>= 1 byte) before anything else, the cursor never decreases", c.PosStr(p.Fset, loop.Pos()), src)
 	wt, ok := lb[2].(*ast.AssignStmt)
@@ -349,34 +625,34 @@ func RunSkip(c *core.Ctx) {
 		con := fmt.Sprintf("runtime.Skip wire type %d", k)
 		switch k {
 		case 0:
-			okV := len(cc.Body) == 1
-			if okV {
-				fl, ok := cc.Body[0].(*ast.ForStmt)
-				okV = ok
-				if ok {
-					v, _ := matchVarint(fl)
-					okV = v != nil
-				}
-			}
+			_, n0, _ := readStep(cc.Body, 0)
+			okV := n0 > 0 && n0 == len(cc.Body)
 			c.Check(okV, "L.skip.table", con, "advance = bytes up to and including the first byte < 0x80 (guarded reader)", "varint payload is not skipped by the guarded varint reader", cpos, src)
 		case 1:
 			c.Check(advConst(cc.Body, 8), "L.skip.table", con, "advance = 8", "fixed64 payload does not advance the cursor by exactly 8", cpos, src)
 		case 5:
 			c.Check(advConst(cc.Body, 4), "L.skip.table", con, "advance = 4", "fixed32 payload does not advance the cursor by exactly 4", cpos, src)
 		case 2:
-			okL := len(cc.Body) == 4
-			var why string
+			ln, nL, why := readStep(cc.Body, 0)
+			rest := cc.Body[min(nL, len(cc.Body)):]
+			// a reader function yields a uint64: `length := int(v)` turns it into the int that is added to the cursor
+			if nL > 0 && ln != nil && basicKind(ln.Type()) == types.Uint64 && len(rest) > 0 {
+				if as, ok := rest[0].(*ast.AssignStmt); ok && as.Tok == token.DEFINE && len(as.Lhs) == 1 && len(as.Rhs) == 1 {
+					if cv, ok := ast.Unparen(as.Rhs[0]).(*ast.CallExpr); ok && len(cv.Args) == 1 && is(cv.Args[0], ln) {
+						if tv, ok := info.Types[cv.Fun]; ok && tv.IsType() && basicKind(tv.Type) == types.Int {
+							ln = info.ObjectOf(as.Lhs[0].(*ast.Ident))
+							rest = rest[1:]
+						}
+					}
+				}
+			}
+			okL := nL > 0 && ln != nil && len(rest) == 2
 			if okL {
-				d, ok := cc.Body[0].(*ast.DeclStmt)
-				fl, ok2 := cc.Body[1].(*ast.ForStmt)
-				g, ok3 := cc.Body[2].(*ast.IfStmt)
-				adv, ok4 := cc.Body[3].(*ast.AssignStmt)
-				okL = ok && ok2 && ok3 && ok4
+				g, ok3 := rest[0].(*ast.IfStmt)
+				adv, ok4 := rest[1].(*ast.AssignStmt)
+				okL = ok3 && ok4
 				if okL {
-					ln := info.ObjectOf(d.Decl.(*ast.GenDecl).Specs[0].(*ast.ValueSpec).Names[0])
-					v, w2 := matchVarint(fl)
-					why = w2
-					okL = v != nil && v.acc == ln && basicKind(v.accT) == types.Int
+					okL = basicKind(ln.Type()) == types.Int
 					if okL {
 						gc, ok := g.Cond.(*ast.BinaryExpr)
 						okL = ok && gc.Op == token.LSS && is(gc.X, ln) && isZero(info, gc.Y) && isErrRet(g.Body) && g.Else == nil
@@ -442,15 +718,18 @@ func RunSkip(c *core.Ctx) {
 	}
 	c.Check(okR, "L.skip.table", "runtime.Skip result", "returns the cursor (length of the first record, groups included) exactly when depth is 0", "the record length is not returned exactly when the group depth is back to 0", c.PosStr(p.Fset, lb[5].Pos()), src)
 	// no other index expressions on the buffer
-	nIdx := 0
+	nIdx, nBad := 0, 0
 	ast.Inspect(fd.Body, func(n ast.Node) bool {
 		if ie, ok := n.(*ast.IndexExpr); ok && is(ie.X, buf) {
 			nIdx++
+			if !validIdx[ie] {
+				nBad++
+			}
 		}
 		if se, ok := n.(*ast.SliceExpr); ok && is(se.X, buf) {
-			nIdx += 100
+			nBad += 100
 		}
 		return true
 	})
-	c.Check(nIdx == 3, "L.skip.nopanic", "runtime.Skip index sites", "3 index expressions on the input, each inside a guarded reader", fmt.Sprintf("index/slice expressions on the input outside the guarded readers (count code %d)", nIdx), pos, src)
+	c.Check(nBad == 0, "L.skip.nopanic", "runtime.Skip index sites", fmt.Sprintf("%d index expressions on the input in Skip, each inside a guarded reader (reader functions are matched as a whole)", nIdx), fmt.Sprintf("index/slice expressions on the input outside the guarded readers (count code %d)", nBad), pos, src)
 }
